@@ -82,6 +82,12 @@ Definition node_shapes_exact (g : list rdf_triple) (shapes : list (str * str)) :
 Definition names_iris (shapes : list shape) (L : list (str * str)) : Prop :=
   Forall2 (fun sh uc => sh_name sh = Str "%<" ++ fst uc ++ Str ">" /\ sh_class sh = snd uc) shapes L.
 
+(** the same when the class key of a shape is not the IRI its [sh:targetClass] names but
+    denotes it through [f] (a shape-map label is kept as [<iri>] by the extraction, and the
+    repaired serialiser removes the corners): [names_iris] is [names_iris_by (fun c => c)] *)
+Definition names_iris_by (f : str -> str) (shapes : list shape) (L : list (str * str)) : Prop :=
+  Forall2 (fun sh uc => sh_name sh = Str "%<" ++ fst uc ++ Str ">" /\ f (sh_class sh) = snd uc) shapes L.
+
 (** ** computable versions (used on the concrete witnesses of Props/C05.v and
     by the harness's model-side self check) *)
 Definition node_objects_declaredb (g : list rdf_triple) (labels : list str) : bool :=
